@@ -7,6 +7,7 @@ From PG Require Import Common.Tactics Model.SymCoreDefs Model.SymCoreOps Model.S
      Proofs.SymCoreBase Proofs.SymCoreWF Proofs.SymCoreWFOps Proofs.SymCoreIds
      Proofs.SymCoreEventsBase Proofs.SymCoreEventsDeliver Proofs.SymCoreEventsStep Proofs.SymCoreEventsWF
      Proofs.SymCoreEventsOrder Proofs.SymCoreEventsTheorems Proofs.SymCoreEventsExamples.
+From PG Require Import Model.SymCoreEventsSpec Proofs.SymCoreEventsQuery Proofs.SymCoreEventsFrame Proofs.SymCoreEventsFresh.
 From Coq Require Import NArith.
 
 (* ---- silence ---------------------------------------------------------------------------------------------------------------------- *)
@@ -89,3 +90,46 @@ Theorem C09_spurious_refuted :
   exists e u, events_of (step_trace q0 st_obj reset_x) = [e] /\ ev_payload e = [([kx], u)] /\ u_old u = u_new u.
 Proof. exact spurious_refuted. Qed.
 Print Assumptions C09_spurious_refuted.
+
+(* ---- freshness of the derived facts ----------------------------------------------------------------------------------------------------------- *)
+(* Vocabulary (Model/SymCoreEventsSpec.v): an extended state [xs] is a forest plus the three memo tables (sym_puresymbolic, sym_missing,
+   sym_nondefault; is_partial is read off sym_missing, is_deterministic is not memoised); [report_x c n] is what node n answers with
+   the tables c (the memoised value if there is one, else a computation that asks the children for THEIR memoised values);
+   [fresh_x n] is the computation without any memo; [Fresh xs]: every table entry of every live node is the value of its current
+   contents; [step2] runs a SymCore operation (state = SymCore.step, tables reset along the trace: every write resets the written
+   container and everything above it, every notification resets its targets), a rebind with skip_notification / notify_parents, or
+   a query (which fills tables). *)
+(* THE OBLIGATION: whatever an operation changes, it resets -- every live node of the new forest is reset by the trace, or is new,
+   or holds exactly what some node of the old forest held *)
+Theorem C09_every_change_is_reset : forall q st o, WFI st -> step_exact st o ->
+  FR st (fst (step q st o)) (rids (step_trace q st o)).
+Proof. exact step_frame. Qed.
+Print Assumptions C09_every_change_is_reset.
+(* hence one step (operation, rebind with skip_notification, query) keeps every memoised fact valid *)
+Theorem C09_fresh_step : forall q xs o, WFI (x_st xs) -> covered (x_st xs) o -> Fresh xs -> Fresh (fst (fst (step2 q xs o))).
+Proof. exact step2_fresh. Qed.
+Print Assumptions C09_fresh_step.
+(* asking never breaks it, and the answer is the fact of the current contents *)
+Theorem C09_query_answers_fresh : forall st c n f, WFI st -> Fresh (mkX st c) -> In n (live_nodes st) ->
+  Fresh (mkX st (query c n f)) /\
+  report_pure c n = val_pure n /\ report_miss c n = val_miss n /\ report_nond c n = val_nond n.
+Proof. exact query_fresh. Qed.
+Print Assumptions C09_query_answers_fresh.
+(* after ANY history from any constructed forest: for every live node, what it reports = what a computation from scratch gives.
+   [history_ok]: rebind(..., notify_parents=False) is not covered, and where the identity test of sort()/reverse() finds that no
+   position holds another object the items are the same list (opaque leaves with one identity have one content) -- Example hist_ok *)
+Theorem C09_fresh : forall q ls ops n,
+  forallb lit_valid ls = true ->
+  let xs0 := mkX (init_forest ls empty_state) no_caches in
+  history_ok q xs0 ops ->
+  let xs := run2 q xs0 ops in
+  In n (live_nodes (x_st xs)) ->
+  report_pure (x_c xs) n = fresh_pure n /\ report_miss (x_c xs) n = fresh_miss n /\ report_nond (x_c xs) n = fresh_nond n /\
+  report_partial (x_c xs) n = mv_nonempty (fresh_miss n).
+Proof. exact reports_are_fresh. Qed.
+Print Assumptions C09_fresh.
+(* the facts as plain functions of the contents: no PureSymbolic leaf below / the nested dict of missing / non-default values *)
+Theorem C09_fresh_is_structural : forall n, NoDup (ids n) ->
+  fresh_pure n = val_pure n /\ fresh_miss n = val_miss n /\ fresh_nond n = val_nond n.
+Proof. exact fresh_is_val. Qed.
+Print Assumptions C09_fresh_is_structural.
